@@ -138,7 +138,8 @@ func (p *c19) execute(cs *c19Case, pol *verifsim.OrderPolicy) *c19Obs {
 		ctx.HardCap = 8000
 		h.Trace = h.Trace[:0]
 		h.nMaybe = 0
-		r := doExecute(e, o)
+		var r Result
+		under(ctx, func() { r = doExecute(e, o) })
 		ob.results = append(ob.results, r.String())
 		ob.traces = append(ob.traces, joinTrace(h.Trace))
 	}
@@ -157,7 +158,8 @@ func (p *c19) execute(cs *c19Case, pol *verifsim.OrderPolicy) *c19Obs {
 		if len(cs.objs) > 0 {
 			o = cs.objs[0]
 		}
-		r := doExecute(e, o)
+		var r Result
+		under(ctx, func() { r = doExecute(e, o) })
 		ob.after = r.String()
 		ob.traceA = joinTrace(h.Trace)
 	}
